@@ -102,7 +102,14 @@ static int sp_remove(ABT_pool pool, ABT_unit unit)
     sp_in[i] = 0; ULTP[i]->thread.is_in_pool.val = 0; return ABT_SUCCESS;
 }
 static ABT_bool sp_unit_is_in_pool(ABT_unit unit) { int i = ult_index_of_unit(unit); return (i >= 0 && sp_in[i]) ? ABT_TRUE : ABT_FALSE; }
-static ABT_bool sp_is_empty(ABT_pool pool) { for (int i = 0; i < NES; i++) if ((ABTI_pool *)pool == ULTP[i]->thread.p_pool && sp_in[i]) return ABT_FALSE; return ABT_TRUE; }
+#ifdef VR_POOLQ_HOOK
+void VR_POOLQ_HOOK(void);
+#endif
+static ABT_bool sp_is_empty(ABT_pool pool) {
+#ifdef VR_POOLQ_HOOK
+    VR_POOLQ_HOOK();   /* scheduling point before the emptiness query */
+#endif
+    for (int i = 0; i < NES; i++) if ((ABTI_pool *)pool == ULTP[i]->thread.p_pool && sp_in[i]) return ABT_FALSE; return ABT_TRUE; }
 
 /* ---------------- callbacks run by the switch model ------------------------------------------------------------ */
 static void vr_run_cb(void (*f)(void *), void *a)
